@@ -53,7 +53,29 @@ func runFuzzCase(cs FuzzCase) ev.Outcome {
 	if curveByName(cs.Curve) == nil {
 		return ev.Outcome{Skip: "unknown curve"}
 	}
-	return fuzzOne(cs.Kind, cs.Curve, data)
+	return fuzzBoth(cs.Kind, cs.Curve, data)
+}
+
+// fuzzBoth gives the bytes to the decoder as they are and, for Round3 (whose
+// decoder refuses everything that is not exactly 707146 bytes long before it
+// looks at anything else), additionally as a patch: bytes 0..2 select an
+// offset, the rest overwrites a well-formed encoding there.
+func fuzzBoth(kind, curve string, data []byte) ev.Outcome {
+	out := fuzzOne(kind, curve, data)
+	if out.Err != "" || kind != "r3" || len(data) == round3Len || len(data) < 4 {
+		return out
+	}
+	ctx := fuzzCtx[kind+"/"+curve]
+	patched := append([]byte{}, ctx.enc[kind]...)
+	off := (int(data[0])<<16 | int(data[1])<<8 | int(data[2])) % len(patched)
+	copy(patched[off:], data[3:])
+	out2 := fuzzOne(kind, curve, patched)
+	out2.Key = out.Key
+	out2.Classes = append(out2.Classes, "r3-patch")
+	if out2.Err != "" {
+		out2.Err = fmt.Sprintf("well-formed Round3 encoding overwritten at offset %d with %d fuzz bytes: %s", off, len(data)-3, out2.Err)
+	}
+	return out2
 }
 
 // fuzzContext returns a stand-in for an honest run: only the curve and one
@@ -162,6 +184,11 @@ func fuzzDecoder(f *testing.F, kind string) {
 	} else {
 		f.Fatalf("seed: %v", err)
 	}
+	if kind == "r3" { // patches: offset (3 bytes) + replacement bytes
+		f.Add([]byte{1, 0, 0, 0, 'R', '3', 0, 0, 0, 0, 0, 0, 0, 1})
+		f.Add([]byte{1, 0, 0, 10, 0xff, 0xff, 0xff, 0xff, 0xff, 0xff, 0xff, 0xff, 0xff, 0xff, 0xff, 0xff, 0xff, 0xff, 0xff, 0xff})
+		f.Add(append([]byte{1, 0x0a, 0x7a, 0x4a}, make([]byte, 64)...))
+	}
 	f.Add([]byte{1})
 	f.Add([]byte{1, magics[kind][0], magics[kind][1]})
 
@@ -182,7 +209,7 @@ func fuzzDecoder(f *testing.F, kind string) {
 			curve = "P-256"
 		}
 		data := in[1:]
-		out := fuzzOne(kind, curve, data)
+		out := fuzzBoth(kind, curve, data)
 		if worker {
 			stats.Execs++
 			for _, c := range out.Classes {
